@@ -236,6 +236,9 @@ def node_engine(res, work, *, node, trace_module, cfgs, consts_of, adapt, attrib
     groups, traces = {}, {}
     for i, r in enumerate(runs, start=1):
         t = adapt(r)
+        if r["cfg"].get("feeder") == "plain":
+            # the caller drops the awaitables: there is no emit completion to speak of
+            t = [e for e in t if e["ev"] not in ("EmitDone", "EmitRaised")]
         for ev in r["ev"]:
             if ev["ev"] == "mutated":      # no specification has such an event: the trace is rejected there
                 num = lambda xs: [x if isinstance(x, int) and not isinstance(x, bool) else -1 for x in xs]     # (JSON null is not a TLA+ value)
